@@ -724,6 +724,8 @@ def emit_fn(spec, impl_item, linemap_cb):
             where_txt = re.sub(r"\bG\s*:\s*'static\s*,?", '', where_txt).strip()
             if where_txt == 'where':
                 where_txt = ''
+            # the type parameter inside other bounds of the fn's own where clause (`I: Iterator<Item = G>`)
+            where_txt = re.sub(r'\bG\b', {'Goal': 'Goal<U, E>', 'DFSGoal': 'DFSGoal<U, E>'}[rules['T14'][0]], where_txt)
     # ---- body ----
     ba, bb = it.body_open, it.b
     bed = Edits(src, toks[ba][3], toks[bb][2])
